@@ -9,7 +9,7 @@ BOUNDS = {"quick": {"programs": "corpus/cprogs.py (C functions through the real 
                     "configs": "each of 9 passes alone, optimize level 2, one 4-pass sequence; constants symbolic for value-dependent passes",
                     "symbolic": "all argument values (full type range), initial contents of globals (<=32 bytes) and 16 bytes behind each pointer argument, 4 external call results",
                     "unwinding": "140 IR instructions per run (thorough 300), call depth 3 (paths hitting it are cut and counted)"},
-          "thorough": {"configs": "+ optimize levels 1, s, 3", "unwinding": "same"}}
+          "thorough": {"configs": "+ optimize levels 1, s; all 9 single passes on every corpus program; 80 sampled 4-block CFG skeletons", "unwinding": "same"}}
 OUTSIDE = ["floating point", "programs outside the corpus", "external functions that modify memory visible to the caller",
            "executions longer than the unwinding bound"]
 ASSUMPTIONS = ["IR reference semantics ref/irsem.py (wrap-around, truncating / %, arithmetic >> on signed)",
